@@ -1,5 +1,6 @@
 """C16 Logical types — structural obligations."""
 import ast
+import re
 
 from sa.loader import AnalysisError, norm, walk_local
 from sa.cfg import cfg_of
@@ -37,6 +38,36 @@ def run(ctx):
 
     ctx.rule("C16.R2", "prepare before the table writer and before the validator; logical reader after decoding, keyed by the writer schema", floor=3)
 
+    TABLES = ("WRITERS", "READERS", "VALIDATORS", "LOGICAL_WRITERS", "LOGICAL_READERS")
+
+    class _Tab(ast.NodeTransformer):
+        """T[k] and T.get(k) are one lookup of a dispatch table"""
+
+        def visit_Subscript(self, n):
+            self.generic_visit(n)
+            if isinstance(n.value, ast.Name) and n.value.id in TABLES and isinstance(n.ctx, ast.Load):
+                return ast.Call(func=ast.Attribute(value=n.value, attr="get", ctx=ast.Load()), args=[n.slice], keywords=[])
+            return n
+
+    def tab(text):
+        try:
+            return norm(ast.fix_missing_locations(_Tab().visit(ast.parse(text, mode="eval").body)))
+        except SyntaxError:
+            return text
+
+    def tsums(f):
+        out = []
+        for s in summaries(cfg_of(f)):
+            if s.kind == "return":
+                facts = set()
+                for x in s.facts:
+                    facts.add(tab(x))
+                    m = re.fullmatch(r"(.+) in (" + "|".join(TABLES) + ")", x)
+                    if m:
+                        facts.add(f"{m.group(2)}.get({m.group(1)})")
+                out.append((tab(s.text), facts))
+        return out
+
     def parts(text):
         try:
             c = ast.parse(text, mode="eval").body
@@ -49,27 +80,33 @@ def run(ctx):
     wd = p.func("_write_py:write_data")
     D, S = wd.pos_params[1], wd.pos_params[2]
     prep = f"LOGICAL_WRITERS.get(extract_logical_type({S}))"
-    sums = [s for s in summaries(cfg_of(wd)) if s.kind == "return" and s.text.startswith("WRITERS.get(")]
-    with_prep = [s for s in sums if prep in s.facts]
-    ok = bool(with_prep) and all((parts(s.text) or ("", ["", ""], {}))[1][1:2] == [f"{prep}({D}, {S})"] for s in with_prep) and all((parts(s.text) or ("", ["", ""], {}))[1][1:2] == [D] for s in sums if s not in with_prep)
-    ctx.check("C16.R2", "write_data: datum = prepare(datum, schema) precedes the table writer, which receives the prepared datum", ok, wd.where(), f"write_data: table writer called as {sorted({s.text[:110] for s in sums})}", "the table writer would encode the unconverted Python value")
+    sums = [(t, fc) for (t, fc) in tsums(wd) if t.startswith("WRITERS.get(")]
+    with_prep = [(t, fc) for (t, fc) in sums if prep in fc and f"not {prep}" not in fc]
+    ok = bool(with_prep) and all((parts(t) or ("", ["", ""], {}))[1][1:2] == [f"{prep}({D}, {S})"] for (t, fc) in with_prep) and all((parts(t) or ("", ["", ""], {}))[1][1:2] == [D] for (t, fc) in sums if (t, fc) not in with_prep)
+    if not sums:
+        ctx.unrecognised("C16.R2", "write_data", wd.where(), "no return of a WRITERS table call found")
+    else:
+        ctx.check("C16.R2", "write_data: datum = prepare(datum, schema) precedes the table writer, which receives the prepared datum", ok, wd.where(), f"write_data: table writer called as {sorted({t[:110] for (t, fc) in sums})}", "the table writer would encode the unconverted Python value")
     vf = p.func("_validation_py:_validate")
     D, S = vf.pos_params[0], vf.pos_params[1]
     prep = f"LOGICAL_WRITERS.get(extract_logical_type({S}))"
-    sums = [s for s in summaries(cfg_of(vf)) if s.kind == "return" and s.text.startswith("VALIDATORS.get(")]
-    with_prep = [s for s in sums if prep in s.facts]
-    ok = bool(with_prep) and all((parts(s.text) or ("", [""], {}))[1][:1] in ([f"{prep}({D}, {S})"], [f"{prep}(None, {S})"]) for s in with_prep)
-    ctx.check("C16.R2", "_validate: the value is prepared before the per-type validator sees it", ok, vf.where(), f"_validate: validator called as {sorted({s.text[:100] for s in with_prep})}", "logical values (datetime, Decimal, UUID) would be rejected by the base-type validators")
+    sums = [(t, fc) for (t, fc) in tsums(vf) if t.startswith("VALIDATORS.get(")]
+    with_prep = [(t, fc) for (t, fc) in sums if prep in fc and f"not {prep}" not in fc]
+    ok = bool(with_prep) and all((parts(t) or ("", [""], {}))[1][:1] in ([f"{prep}({D}, {S})"], [f"{prep}(None, {S})"]) for (t, fc) in with_prep)
+    if not sums:
+        ctx.unrecognised("C16.R2", "_validate", vf.where(), "no return of a VALIDATORS table call found")
+    else:
+        ctx.check("C16.R2", "_validate: the value is prepared before the per-type validator sees it", ok, vf.where(), f"_validate: validator called as {sorted({t[:100] for (t, fc) in (with_prep or sums)})}", "logical values (datetime, Decimal, UUID) would be rejected by the base-type validators")
     rd = p.func("_read_py:read_data")
     W = rd.pos_params[1]
     lr = f"LOGICAL_READERS.get(extract_logical_type({W}))"
-    sums = [s for s in summaries(cfg_of(rd)) if s.kind == "return"]
-    conv = [s for s in sums if lr in s.facts and f"'logicalType' in {W}" in s.facts and any(x.startswith("READERS.get(") for x in s.facts)]
+    sums = tsums(rd)
+    conv = [(t, fc) for (t, fc) in sums if lr in fc and f"'logicalType' in {W}" in fc and any(x.startswith("READERS.get(") for x in fc)]
     ok = bool(conv)
-    for s in conv:
-        pp_ = parts(s.text)
+    for (t, fc) in conv:
+        pp_ = parts(t)
         ok = ok and pp_ is not None and pp_[0] == lr and len(pp_[1]) >= 2 and pp_[1][0].startswith("READERS.get(") and pp_[1][1] == W
-    ctx.check("C16.R2", "read_data: the logical reader converts the decoded value and is chosen by the writer schema's annotation", ok, rd.where(), f"read_data: logical paths return {sorted({s.text[:90] for s in conv})}", "the conversion must follow decoding and be keyed by what the writer annotated")
+    ctx.check("C16.R2", "read_data: the logical reader converts the decoded value and is chosen by the writer schema's annotation", ok, rd.where(), f"read_data: logical paths return {sorted({t[:90] for (t, fc) in conv})}", "the conversion must follow decoding and be keyed by what the writer annotated")
 
     ctx.rule("C16.R3", "UTC variants use the aware epoch, local variants the naive epoch / replace(tzinfo=utc) (sibling agreement)", floor=8)
     lrm = p.module("_logical_readers_py")
